@@ -1,0 +1,35 @@
+//go:build verif
+
+// Verification hook (build tag "verif") for property C01: a StdioClient whose transport talks to a caller-supplied
+// writer/reader pair instead of the pipes of a child process, so that an in-process peer can answer a request before the
+// write of the request returns. Nothing here is compiled into a normal build.
+
+package mcp
+
+import (
+	"encoding/json"
+	"io"
+	"os/exec"
+	"time"
+)
+
+// VerifNewStdioClientOnPipes returns a StdioClient that is "started" on the given ends: requests are encoded onto stdin,
+// the transport's reader loop reads stdout. No process is launched; Close closes both ends.
+func VerifNewStdioClientOnPipes(info Implementation, timeout time.Duration, stdin io.WriteCloser, stdout io.ReadCloser, options ...StdioClientOption) (*StdioClient, error) {
+	c, err := NewStdioClient(StdioTransportConfig{ServerParams: StdioServerParameters{Command: "in-process"}, Timeout: timeout}, info, options...)
+	if err != nil {
+		return nil, err
+	}
+	t := c.transport
+	t.startMutex.Lock()
+	t.process = &exec.Cmd{} // marks the transport as started; there is no process to signal or wait for
+	t.stdin = stdin
+	t.stdout = stdout
+	t.requestMutex.Lock()
+	t.encoder = json.NewEncoder(stdin)
+	t.decoder = json.NewDecoder(stdout)
+	t.requestMutex.Unlock()
+	t.startMutex.Unlock()
+	go t.readLoop()
+	return c, nil
+}
